@@ -56,7 +56,7 @@ Lemma node_op_inv now tl nd Gs op :
   ports_inv tl (n_ports nd) Gs -> tl <= now -> data_ok op ->
   ports_inv now (n_ports (fst (node_op now nd op))) (ntext_op now nd Gs op).
 Proof.
-  intros H Htl Hd. destruct op as [k|i u|i|i ltp|s|n]; cbn [node_op ntext_op fst n_ports].
+  intros H Htl Hd. destruct op as [k|i u|i|i ltp|s|n|b]; cbn [node_op ntext_op fst n_ports].
   - pose proof (node_data_ok (n_net nd) now tl _ _ k H Htl Hd) as F. clear H.
     induction F as [|p G ps Gs (A & _) _ IH]; cbn [map combine]; constructor; [exact A | exact IH].
   - apply upd_nth_inv; [|eapply ports_inv_mono; eauto]. intros p G R.
@@ -64,6 +64,7 @@ Proof.
   - apply upd_nth_inv; [|eapply ports_inv_mono; eauto]. intros p G R. exact R.
   - apply upd_nth_inv; [|eapply ports_inv_mono; eauto]. intros p G R. exact R.
   - apply map_inv; [|eapply ports_inv_mono; eauto]. intros p G R. exact R.
+  - eapply ports_inv_mono; eauto.
   - eapply ports_inv_mono; eauto.
 Qed.
 
